@@ -387,7 +387,7 @@ class Ctx:
             if tot and got / tot < minimum:
                 degenerate.append(f"{part}:{cls} {got}/{tot} < {minimum}")
         rc = 0
-        replay_dir = VERIF / "replays" / self.prop
+        replay_dir = Path(os.environ.get("VERIF_REPLAY_DIR") or (VERIF / "replays")) / self.prop
         lines = []
         for v in self.violations:
             replay_dir.mkdir(parents=True, exist_ok=True)
@@ -431,8 +431,9 @@ class Ctx:
             "wall_s": round(wall, 2),
             "violations": len(self.violations),
         }
-        (VERIF / "evidence").mkdir(exist_ok=True)
-        (VERIF / "evidence" / f"{self.prop}.json").write_text(json.dumps(ev, indent=1, allow_nan=False, default=_nan_safe))
+        evdir = Path(os.environ.get("VERIF_EVIDENCE_DIR") or (VERIF / "evidence"))
+        evdir.mkdir(exist_ok=True, parents=True)
+        (evdir / f"{self.prop}.json").write_text(json.dumps(ev, indent=1, allow_nan=False, default=_nan_safe))
         print(
             f"[{self.prop}] tier={self.tier} seed={self.seed} evaluations={self.evaluations} "
             f"distinct_nontrivial={len(self.nontrivial)} violations={len(self.violations)} "
